@@ -65,6 +65,13 @@ def instance(name, tier, rng):
             for stacks in ([(3, 5), (4, 2)] if q else [(3, 5), (4, 2), (2, 2), (5, 5), (1, 6)]):
                 for autos in ([], list(ALL_AUTOS)):
                     cfgs.append({'cfg': cfg(2, st, structure, [0, 0], [1, 2], 0, stacks, ['StandardHigh'], ROYAL, autos, True), 'decks': dk})
+        # three-handed with unequal stacks: side pots, folded dead money, uncalled bets (mechanical steps automated: the manual
+        # three-handed tree is thorough-tier)
+        mech = ['Ante posting', 'Bet collection', 'Blind or straddle posting', 'Card burning', 'Hole dealing', 'Board dealing',
+                'Hand killing', 'Chips pushing', 'Chips pulling']
+        cfgs.append({'cfg': cfg(3, st, 'No-limit', [0, 0, 0], [1, 2, 0], 0, (2, 4, 3), ['StandardHigh'], ROYAL, mech, True), 'decks': dk[:1]})
+        cfgs.append({'cfg': cfg(3, st, 'No-limit', [1, 1, 1], [1, 2, 0], 0, (3, 6, 4), ['StandardHigh'], ROYAL, list(ALL_AUTOS), False, trim=False),
+                     'decks': dk[:1]})
         if not q:
             cfgs.append({'cfg': cfg(3, st, 'No-limit', [0, 0, 0], [1, 2, 0], 0, (3, 4, 2), ['StandardHigh'], ROYAL, [], True), 'decks': dk[:1]})
     elif name == 'ministud':
